@@ -23,5 +23,7 @@ for d in sorted(os.listdir(R)):
 print("| seeded change | check | caught | by | failing obligation / note |\n|---|---|---|---|---|")
 print("\n".join(rows))
 n = len(rows); np_ = sum(1 for r in rows if "| proof obligation" in r); nb = sum(1 for r in rows if "| bounded stand-in |" in r)
-print("\n%d seeded changes (60 written by fresh sub-agents from the property text only, in three rounds, each confirmed by me: suite passes, demo fails with / passes without; "
-      "6 reverse patches of the repairs): all caught; %d by a failing proof obligation, %d only by the bounded stand-in on the real code." % (n, np_, nb))
+nrev = sum(1 for r in rows if r.startswith("| F"))
+print("\n%d seeded changes (%d written by fresh sub-agents from the property text only, in several rounds, each confirmed by me: suite passes, demo fails with / passes without; "
+      "%d reverse patches of the repairs): %s; %d by a failing proof obligation, %d only by the bounded stand-in on the real code." % (
+          n, n - nrev, nrev, "all caught" if all("| yes |" in r for r in rows) else "NOT all caught", np_, nb))
